@@ -697,6 +697,9 @@ void XMLFormatter::specialFormat(const  XMLCh* const    toFormat
                     // hex 0xFFFF printed.
                     tmpPtr = srcPtr;
                     tmpPtr++; // point at low surrogate
+                    // there must be one, inside the text we were given
+                    if ((tmpPtr >= endPtr) || ((*tmpPtr & 0xFC00) != 0xDC00))
+                        ThrowXMLwithMemMgr(TranscodingException, XMLExcepts::Trans_BadSrcSeq, fMemoryManager);
                     writeCharRef((XMLSize_t) (0x10000+((*srcPtr-0xD800)<<10)+*tmpPtr-0xDC00));
                     srcPtr++; // advance to low surrogate (will advance again below)
                 }
@@ -706,7 +709,7 @@ void XMLFormatter::specialFormat(const  XMLCh* const    toFormat
 
                 // Move up the source pointer and break out if needed
                 srcPtr++;
-                if (fXCoder->canTranscodeTo(*srcPtr))
+                if ((srcPtr < endPtr) && fXCoder->canTranscodeTo(*srcPtr))
                     break;
             }
         }
